@@ -1750,7 +1750,13 @@ pub fn suite_tables(ctx: &mut Ctx, suite: &str) {
     }
     ctx.tick("tables");
     let m = ctx.model.ask("tables");
-    let table = verif_hooks::binop_table();
+    // only the ORDER of the precedence numbers is observable (rescaling them consistently is a harmless refactoring):
+    // compared as dense ranks 1..k, tightest first
+    let raw = verif_hooks::binop_table();
+    let mut levels: Vec<_> = raw.iter().map(|(_, p)| *p).collect();
+    levels.sort();
+    levels.dedup();
+    let table: Vec<(String, u8)> = raw.iter().map(|(sym, p)| (sym.clone(), (levels.iter().position(|l| l == p).unwrap() + 1) as u8)).collect();
     let il = format!(
         "prec {}",
         table
